@@ -1,5 +1,6 @@
 //! scverif — runtime monitors for smartcore (see /verif/DESIGN.md)
 pub mod gen;
+pub mod matprog;
 pub mod refla;
 pub mod rng;
 pub mod runner;
